@@ -1590,6 +1590,12 @@ pub fn catalogue_cases() -> Vec<ProgramCase> {
     texts.push(("tuples".into(), "type p = record { nat; text };\ntype q = record { 0 : nat; 2 : text };\ntype u = record { 1 : nat };\ntype o = opt opt nat;\ntype e = record {};\nservice : { f : (p, q, u) -> (o, e, record { nat; record { text; bool } }) }".into()));
     // case conversions of definition and field names
     texts.push(("case-conversions".into(), "type my_type = record { myField : nat; my_field2 : text; MYFIELD : bool };\ntype MyType2 = variant { caseOne; case_two : nat; CASE3 };\ntype HTTPRequest = record { urlPath : text };\ntype x1_y2 = nat;\nservice : { getValue : (my_type) -> (MyType2); get_http : (HTTPRequest) -> (x1_y2) query }".into()));
+    // names derived for anonymous types that coincide with definitions, with each other, and with numbered names
+    texts.push(("generated-name-vs-definition".into(), "type A = record { b : record { x : nat } };\ntype AB = nat;\ntype AB2 = text;\nservice : { f : (A) -> (AB, AB2) }".into()));
+    texts.push(("generated-name-vs-cased-definition".into(), "type a = record { b : variant { x; y } };\ntype a_b = nat;\ntype a_b2 = text;\nservice : { f : (a) -> (a_b, a_b2) }".into()));
+    texts.push(("generated-names-collide".into(), "type a_b = record { c : record { x : nat } };\ntype a = record { b_c : record { y : text } };\nservice : { f : (a_b) -> (a) }".into()));
+    texts.push(("generated-name-replaces-service".into(), "type B = service { ping : () -> () };\ntype b = record { f : func (B) -> (opt nat) };\nservice : B".into()));
+    texts.push(("generated-item-name".into(), "type Item = nat;\ntype t_ = vec record { x : Item; y : vec record { z : text } };\ntype t_Item = bool;\nservice : { f : (t_) -> (Item, t_Item) }".into()));
     let mut out = Vec::new();
     for (name, text) in texts {
         let t2 = text.clone();
